@@ -193,6 +193,8 @@ inductive FsKind where
   | httpDir   -- `http.Dir(root)`
   | httpIoFS  -- `http.FS(fsys)` over an `fs.FS` that answers `ErrInvalid` to a name that is not `fs.ValidPath` (os.DirFS, fs.Sub)
   | httpMapFS -- `http.FS(fstest.MapFS)`: answers `ErrNotExist` to such a name
+  | httpDirFS -- `http.FS(os.DirFS(dir))`: like `httpIoFS`, and a name with a NUL byte is `ErrInvalid` too
+              -- (`filepath.Localize`); `httpIoFS` / `httpMapFS` just do not find such a name
 deriving DecidableEq, Repr, Inhabited
 
 /-- `fsys.Open(n)` of an `fs.FS` rooted at `rootSegs` -/
@@ -214,12 +216,40 @@ def mapOpenErr (t : Tree) (rootSegs : List Str) (n : Str) : Look :=
         | _ => .invalid
   go 0 parts.length
 
+/-- the NUL byte: no file name contains it; `filepath.Localize` (behind `http.Dir` and
+    `os.DirFS`) refuses a name with it, the OS answers `EINVAL` -/
+def hasNul (s : Str) : Bool := s.contains (Char.ofNat 0)
+
+/-- `os.DirFS(dir).Open(n)` -/
+def ioOpenN (t : Tree) (rootSegs : List Str) (n : Str) : Look :=
+  if hasNul n then .invalid else ioOpen t rootSegs n
+
+/-- `mapOpenError` over `os.DirFS` -/
+def mapOpenErrN (t : Tree) (rootSegs : List Str) (n : Str) : Look :=
+  let parts := splitOn '/' n
+  let rec go (k : Nat) (fuel : Nat) : Look :=
+    match fuel with
+    | 0 => .invalid
+    | fuel + 1 =>
+      if k ≥ parts.length then .invalid
+      else if parts.getD k [] = [] then go (k + 1) fuel
+      else match ioOpenN t rootSegs (joinSep '/' (parts.take (k + 1))) with
+        | .dir _ => go (k + 1) fuel
+        | .file _ => .notExist
+        | _ => .invalid
+  go 0 parts.length
+
 def fsOpen (kind : FsKind) (t : Tree) (rootSegs : List Str) (name : Str) : Look :=
   match kind with
   | .httpDir =>
-    -- `path.Clean("/"+name)[1:]`, `filepath.Localize` (rejects invalid UTF-8), join under the root
+    -- `path.Clean("/"+name)[1:]`, `filepath.Localize` (rejects invalid UTF-8 and NUL), join under the root
     let c := clean ('/' :: name)
-    if utf8Valid (c.map Char.toNat) then look t (rootSegs ++ segsOf c) else .invalid
+    if utf8Valid (c.map Char.toNat) && !hasNul c then look t (rootSegs ++ segsOf c) else .invalid
+  | .httpDirFS =>
+    let n := if name = ['/'] then dot else trimPrefixC '/' name
+    match ioOpenN t rootSegs n with
+    | .invalid => mapOpenErrN t rootSegs n
+    | r => r
   | .httpIoFS =>
     let n := if name = ['/'] then dot else trimPrefixC '/' name
     match ioOpen t rootSegs n with
@@ -566,7 +596,7 @@ def pTree : P Tree := list (do let p ← str; let n ← pNode; pure (p, n))
 def pKind : P FsKind := do
   let k ← nat
   match k with
-  | 0 => pure .httpDir | 1 => pure .httpIoFS | 2 => pure .httpMapFS | _ => failure
+  | 0 => pure .httpDir | 1 => pure .httpIoFS | 2 => pure .httpMapFS | 3 => pure .httpDirFS | _ => failure
 
 def pNext : P Next := do
   let b ← bool
